@@ -136,6 +136,12 @@ fn unhex(s: &str) -> Vec<u8> {
 }
 
 fn build_pipeline(v: &Value) -> Pipeline {
+    build_pipeline_upto(v, None).0
+}
+
+/// `upto` = Some(m): compose only the first m commands (left to right) and hand back the others, so that the caller
+/// can configure the pipeline first and append the rest with `| command` afterwards
+fn build_pipeline_upto(v: &Value, upto: Option<usize>) -> (Pipeline, Vec<Exec>) {
     let n = v["n"].as_u64().unwrap() as usize;
     let fail_at = v["fail_at"].as_i64().unwrap_or(-1);
     let det = v["detached"].as_bool().unwrap_or(false);
@@ -163,6 +169,15 @@ fn build_pipeline(v: &Value) -> Pipeline {
         }
         stages.push(e);
     }
+    if let Some(m) = upto {
+        let rest = stages.split_off(m);
+        let mut it = stages.into_iter();
+        let mut p = it.next().unwrap() | it.next().unwrap();
+        for e in it {
+            p = p | e;
+        }
+        return (p, rest);
+    }
     if v["tree"].is_array() {
         // an explicit composition tree: leaf = stage index, node = [left, right]
         enum E {
@@ -184,13 +199,13 @@ fn build_pipeline(v: &Value) -> Pipeline {
         }
         let mut st: Vec<Option<Exec>> = stages.into_iter().map(Some).collect();
         return match build(&v["tree"], &mut st) {
-            E::P(p) => p,
+            E::P(p) => (p, vec![]),
             E::X(_) => panic!("a pipeline needs two commands"),
         };
     }
     let shape = v["shape"].as_str().unwrap_or("left");
     let mut it = stages.into_iter();
-    match shape {
+    let p = match shape {
         "iter" => Pipeline::from_exec_iter(it),
         "pp" => {
             // (a | b | ...) | (... | y | z): split in the middle, both halves need two commands
@@ -217,7 +232,8 @@ fn build_pipeline(v: &Value) -> Pipeline {
             }
             p
         }
-    }
+    };
+    (p, vec![])
 }
 
 fn run_pipeline(v: &Value, out: &mut Vec<String>) {
@@ -227,7 +243,8 @@ fn run_pipeline(v: &Value, out: &mut Vec<String>) {
     let sin = v["stdin"].as_str().unwrap_or("inherit");
     let sout = v["stdout"].as_str().unwrap_or("inherit");
     let serr = v["stderr"].as_str().unwrap_or("inherit");
-    let mut p = build_pipeline(v);
+    // "config_after": m -- the redirections are set when the pipeline has m commands; the others are appended afterwards
+    let (mut p, later) = build_pipeline_upto(v, v["config_after"].as_u64().map(|m| m as usize));
     let inpath = tmpfile("in.txt");
     let outpath = tmpfile("out.txt");
     let errpath = tmpfile("err.txt");
@@ -251,6 +268,9 @@ fn run_pipeline(v: &Value, out: &mut Vec<String>) {
     }
     if serr == "file" {
         p = p.stderr_to(File::create(&errpath).unwrap());
+    }
+    for e in later {
+        p = p | e;
     }
     let pre = fd_table();
     out.push(json!({"e":"pre","fds":pre}).to_string());
